@@ -192,7 +192,9 @@ def check_seal_alloc(rep, facts, a, inplace_key, rule='R14.2'):
     rep.check(c2, rule, fn, 'seal-in-place', pp(('call', d2[1], d2[2])) if d2[0] == 'call' else d2[0],
               'self.seal_in_place_detached(&mut buf[..len], aad)', where(a, ws[1][0]))
     c3 = False
-    if d3[0] == 'call' and d3[1].endswith('copy_from_slice') and tgt_strip(p3) == tail:
+    # buf was allocated with exactly len + Nt bytes, so buf[len..] *is* buf[len..len+Nt]
+    tail_open = (('slice', plen, None),)
+    if d3[0] == 'call' and d3[1].endswith('copy_from_slice') and tgt_strip(p3) in (tail, tail_open):
         src = a.deref_val(d3[2][1], ws[2][0])
         # tag = Ok payload of the in-place seal, field 0
         x = src
